@@ -11,7 +11,10 @@ Byte == 0..255
 
 IsBytes(s) == \A i \in 1..Len(s) : s[i] \in Byte
 
-Zeros(n) == [i \in 1..n |-> 0]
+\* TLC evaluates [i \in S |-> e] lazily, once per application; Mat forces a tuple (each element once)
+Mat(f, n) == SubSeq(f, 1, n)
+
+Zeros(n) == Mat([i \in 1..n |-> 0], n)
 
 \* little-endian encodings of small naturals
 LE16(v) == << v % 256, (v \div 256) % 256 >>
@@ -21,7 +24,7 @@ UnLE16(b, p) == b[p] + 256 * b[p + 1]
 \* bit k (0 = least significant) of a small natural
 Bit(v, k) == (v \div (2 ^ k)) % 2
 
-XorBytes(a, b) == [i \in 1..Len(a) |-> a[i] ^^ b[i]]
+XorBytes(a, b) == Mat([i \in 1..Len(a) |-> a[i] ^^ b[i]], Len(a))
 
 \* number of set bits among the low n bits
 RECURSIVE PopCount(_, _)
@@ -40,7 +43,7 @@ FromLimbs16(l) == << 0, l[4] \div 256, l[4] % 256, l[3] \div 256, l[3] % 256,
                      l[2] \div 256, l[2] % 256, l[1] \div 256, l[1] % 256 >>
 
 \* a natural below 2^31 -> BigNat
-FromNat(n) == [i \in 1..W |-> IF i < W - 3 THEN 0 ELSE (n \div (256 ^ (W - i))) % 256]
+FromNat(n) == Mat([i \in 1..W |-> IF i < W - 3 THEN 0 ELSE (n \div (256 ^ (W - i))) % 256], W)
 
 RECURSIVE BigCmpFrom(_, _, _)
 BigCmpFrom(a, b, i) ==   \* -1, 0, 1
@@ -55,24 +58,24 @@ BigEq(a, b) == a = b
 \* carry into position i (from the less significant positions) of a + b
 RECURSIVE CarryAdd(_, _, _)
 CarryAdd(a, b, i) == IF i >= W THEN 0 ELSE (a[i + 1] + b[i + 1] + CarryAdd(a, b, i + 1)) \div 256
-BigAdd(a, b) == [i \in 1..W |-> (a[i] + b[i] + CarryAdd(a, b, i)) % 256]
+BigAdd(a, b) == Mat([i \in 1..W |-> (a[i] + b[i] + CarryAdd(a, b, i)) % 256], W)
 
 \* borrow into position i of a - b  (requires a >= b)
 RECURSIVE BorrowSub(_, _, _)
 BorrowSub(a, b, i) ==
     IF i >= W THEN 0
     ELSE IF a[i + 1] - b[i + 1] - BorrowSub(a, b, i + 1) < 0 THEN 1 ELSE 0
-BigSub(a, b) == [i \in 1..W |-> (a[i] + 256 - b[i] - BorrowSub(a, b, i)) % 256]
+BigSub(a, b) == Mat([i \in 1..W |-> (a[i] + 256 - b[i] - BorrowSub(a, b, i)) % 256], W)
 
 \* a (BigNat) times a small natural m (m * 255 + carry must stay below 2^31)
 RECURSIVE CarryMul(_, _, _)
 CarryMul(a, m, i) == IF i >= W THEN 0 ELSE (a[i + 1] * m + CarryMul(a, m, i + 1)) \div 256
-BigMulSmall(a, m) == [i \in 1..W |-> (a[i] * m + CarryMul(a, m, i)) % 256]
+BigMulSmall(a, m) == Mat([i \in 1..W |-> (a[i] * m + CarryMul(a, m, i)) % 256], W)
 
 \* long division of a BigNat by a small divisor d < 2^23: remainder after limb i
 RECURSIVE RemAt(_, _, _)
 RemAt(a, d, i) == IF i = 0 THEN 0 ELSE (RemAt(a, d, i - 1) * 256 + a[i]) % d
-BigDivSmall(a, d) == [i \in 1..W |-> (RemAt(a, d, i - 1) * 256 + a[i]) \div d]
+BigDivSmall(a, d) == Mat([i \in 1..W |-> (RemAt(a, d, i - 1) * 256 + a[i]) \div d], W)
 BigModSmall(a, d) == RemAt(a, d, W)
 
 \* low 10 bits of a BigNat
